@@ -17,6 +17,16 @@ partial def parseISel (j : Json) : ISel :=
     ((getArr j "args").map (fun a => (getStr a "n", parseIVal ((getObj? a "v").getD .null))))
     ((getArr j "s").map parseISel)
 
+def ivalOut : IVal → Json
+  | .lit j => obj [("t", "lit"), ("j", ofJ j)]
+  | .var n d => obj [("t", "var"), ("n", n), ("hd", d.isSome), ("d", match d with | some j => ofJ j | none => .null)]
+
+partial def iselOut : ISel → Json
+  | .inline sub => obj [("k", "i"), ("s", jarr (sub.map iselOut))]
+  | .field a n args sub =>
+    obj [("k", "f"), ("a", a), ("n", n), ("args", jarr (args.map (fun x => obj [("n", x.1), ("v", ivalOut x.2)]))),
+         ("s", jarr (sub.map iselOut))]
+
 def parseVars (j : Json) (k : String) : List (String × J) :=
   match toJ ((getObj? j k).getD .null) with
   | .obj kvs => kvs
